@@ -124,4 +124,18 @@ def scanEvents (bs : Bytes) : List Event × Bool :=
   let a := finishLine (ls.foldl stepLine {}) rest
   (a.out, a.malformed)
 
+/-! ## the domain of `sse_roundtrip` -/
+
+/-- A field value the property quantifies over: `TrimSpace` leaves it unchanged (no blank at either
+end — true of every compact JSON text, of every event name and id the SDK uses) and it has no LF. -/
+def Clean (v : Bytes) : Prop := trim v = v ∧ LF ∉ v
+
+structure CleanEvent (e : Event) : Prop where
+  name : Clean e.name
+  id : Clean e.id
+  retry : Clean e.retry
+  data : Clean e.data
+  nonempty : e.isEmpty = false
+
+
 end Wire
